@@ -2,11 +2,13 @@ package checks
 
 import (
 	"fmt"
+	"os"
 	"strings"
 	"time"
 
 	v1 "github.com/josephburnett/jd/lib"
 
+	"verif/mc/cli"
 	"verif/mc/engine"
 	"verif/mc/impl"
 	"verif/mc/ref"
@@ -80,6 +82,14 @@ func init() {
 			return m
 		},
 		Enum: func(tier string, e *engine.Emitter) {
+			// the v1 API through the top-level binary: jd -v2=false FLAGS a b, then jd -v2=false -p FLAGS diff a
+			for _, fl := range []string{"", "-set", "-mset", "-set -setkeys id,t", "-setkeys id,t"} { // (id alone does not identify these members)
+				for _, a := range c17CLIDocs {
+					for _, b := range c17CLIDocs {
+						e.Emit(engine.Case{Kind: "c17cli", Leg: "cli/-v2=false", A: a, B: b, X: fl})
+					}
+				}
+			}
 			al := NewTextSet(AliasDocs())
 			for _, o := range []string{"none", "SET", "MULTISET"} {
 				pairs(e, "c17:"+o, "alias/"+o, al, al)
@@ -97,7 +107,49 @@ func init() {
 	})
 }
 
+// members share "id" and are told apart by "t"; every member carries both keys
+var c17CLIDocs = []string{`[{"id":1,"t":"a","v":0},{"id":1,"t":"b","v":0},{"id":2,"t":"a","v":0}]`, `[{"id":1,"t":"a","v":0},{"id":1,"t":"b","v":1},{"id":2,"t":"a","v":0}]`,
+	`[{"id":2,"t":"a","v":0},{"id":1,"t":"b","v":0},{"id":1,"t":"a","v":5}]`, `[{"id":1,"t":"b","v":0}]`, `[]`, `[{"id":1,"t":"a","v":[1,2]},{"id":1,"t":"b","v":[2,1]}]`,
+	`{"k":[{"id":1,"t":"a","v":0},{"id":1,"t":"b","v":2}]}`, `{"k":[{"id":1,"t":"b","v":3},{"id":1,"t":"a","v":0}]}`}
+
+func runC17CLI(c *engine.Case) engine.Result {
+	res := engine.Result{Traces: 1, Nontrivial: c.A != c.B, Bucket: "cli/" + c.X}
+	reading := ref.List
+	if strings.Contains(c.X, "-set") {
+		reading = ref.Set
+	} else if strings.Contains(c.X, "-mset") {
+		reading = ref.Multiset
+	}
+	dir := cli.TempDir()
+	defer os.RemoveAll(dir)
+	fa, fb := cli.WriteFile(dir, "a.json", c.A), cli.WriteFile(dir, "b.json", c.B)
+	flags := append([]string{"-v2=false"}, strings.Fields(c.X)...)
+	out := cli.Run(dir, cli.Bin("jd-top"), append(append([]string{}, flags...), fa, fb), nil)
+	res.Transitions++
+	equal := ref.Equal(ref.MustParse(c.A), ref.MustParse(c.B), reading)
+	switch {
+	case out.Timeout:
+		res.Violation = "CLI did not terminate"
+	case equal && out.Exit != 0, !equal && out.Exit != 1:
+		res.Violation = fmt.Sprintf("jd %s a b: inputs equal=%v under the flags but exit status %d (%s)", strings.Join(flags, " "), equal, out.Exit, firstLine(out.Stderr))
+	}
+	if res.Violation != "" || equal {
+		return res
+	}
+	fd := cli.WriteFile(dir, "d.diff", out.Stdout)
+	back := cli.Run(dir, cli.Bin("jd-top"), append(append([]string{"-p"}, flags...), fd, fa), nil)
+	res.Transitions++
+	got, perr := ref.Parse(back.Stdout)
+	if back.Exit != 0 || perr != nil || ref.IsVoid(got) || !ref.Equal(got, ref.MustParse(c.B), reading) {
+		res.Violation = fmt.Sprintf("jd -p %s applied to the printed diff: exit %d, output %q (stderr %q), not b | diff:\n%s", strings.Join(flags, " "), back.Exit, back.Stdout, firstLine(back.Stderr), out.Stdout)
+	}
+	return res
+}
+
 func runC17(c *engine.Case) engine.Result {
+	if c.Kind == "c17cli" {
+		return runC17CLI(c)
+	}
 	o := impl.OptionsV1(optOf(c.Kind))
 	aV, bV := ref.MustParse(c.A), ref.MustParse(c.B)
 	res := engine.Result{}
